@@ -127,6 +127,7 @@ type FnCtx struct {
 	inlineStack   []string
 	imprecise     []string
 	labels        map[ast.Stmt]string // labelled loops / switches
+	cfCount       int  // slices.ContainsFunc predicates defined so far
 	loopsLost     bool // the function has fewer loops than loops.lock records for it
 	brokenContracts map[string]bool
 	hintMode      int // >0 while a loop invariant (a proof hint, not a claim) is evaluated
